@@ -629,9 +629,8 @@ def tier_c(run, thorough):
                       n_cond=5, reps='unbalanced'),
                  dict(shape=[13, 9, 9], mask='full', seed=7, radius=SQ3 + 1e-9, threshold=0.7, method='euclidean', n_cond=3, reps=1)]
     for case in pipe:
-        n_acc = len(_spec_volume(_build_mask(case), case['radius'], case['threshold'])) if np.prod(case['shape']) <= 200 else 1001
-        if n_acc == 0:
-            continue
+        n_acc = len(_spec_volume(_build_mask(case), case['radius'], case['threshold']))
+        assert n_acc > 0, 'pipeline cases are chosen to have accepted centres'
         bd.check(orc_pipeline, case, 'pipeline,chunked' if n_acc > 1000 else 'pipeline,unchunked', function='get_searchlight_RDMs')
     bd.done()
     bds.append(bd)
